@@ -29,7 +29,7 @@ REQUIRED_REACH = ["rpms.Rpms.add", "rpms.Rpms._check_nevra", "modules.Modules.ad
                   "modules.Modules.parse_uid", "extra_files.ExtraFiles.add", "extra_files.ExtraFiles.dump_for_tree",
                   "extra_files._relative_to", "common.parse_nvra"]
 REQUIRED_MONITORS = ["outcome-matches-model", "state-matches-model", "refusal-type", "dump-for-tree"]
-CLASS_FLOORS = {}
+CLASS_FLOORS = {"interlude-del-variant": 10, "interlude-del-arch": 10, "interlude-reload-self": 10}
 for k in F.RPMS_INVALID:
     CLASS_FLOORS["rpms-refuse-" + k] = 5
 for k in F.MODULES_INVALID:
@@ -69,7 +69,7 @@ def gen_history(rng, kind, n=None):
             k += 1
         if kind == "rpms":
             if ops and invalid is None and rng.random() < 0.15:
-                prev = rng.choice([o for o in ops])
+                prev = rng.choice([o for o in ops if not o.get("interlude")])
                 op = copy.deepcopy(prev)
                 if op["meta"].get("invalid") is None:
                     if rng.random() < 0.5:
@@ -80,9 +80,18 @@ def gen_history(rng, kind, n=None):
                 ops.append(op)
                 continue
             ops.append(F.gen_rpms_op(rng, pool, invalid))
+            if invalid is None and rng.random() < 0.12:
+                # the caller drops a variant / an arch, or reads the manifest's own dump back into it, and then goes on with the
+                # NEXT sub-package of the build it was adding: the entry is filed where the arguments say - in the manifest
+                sib = F.sibling_rpms_op(rng, pool, ops[-1])
+                if sib is not None:
+                    a = ops[-1]["args"]
+                    ops.append({"kind": "rpms", "interlude": rng.choice(["del-variant", "del-arch", "reload-self"]),
+                                "args": {"variant": a["variant"], "arch": a["arch"]}, "meta": {"invalid": None}})
+                    ops.append(sib)
         elif kind == "modules":
             op = F.gen_modules_op(rng, invalid)
-            prev = [o for o in ops if o["meta"].get("invalid") is None and isinstance(o["args"].get("rpms"), list)]
+            prev = [o for o in ops if o["meta"].get("invalid") is None and not o.get("interlude") and isinstance(o["args"].get("rpms"), list)]
             if invalid is None and prev and rng.random() < 0.5:
                 p0 = prev[-1]
                 r = rng.random()
@@ -96,6 +105,13 @@ def gen_history(rng, kind, n=None):
                         op["args"][fld] = p0["args"][fld]
                     op["meta"]["uid_parts"] = p0["meta"]["uid_parts"]
             ops.append(op)
+            if invalid is None and rng.random() < 0.1:
+                a = op["args"]
+                ops.append({"kind": "modules", "interlude": rng.choice(["del-variant", "del-arch", "reload-self"]),
+                            "args": {"variant": a["variant"], "arch": a["arch"]}, "meta": {"invalid": None}})
+                again = copy.deepcopy(op)
+                again["args"]["category"] = rng.choice(["binary", "debug", "source"]) if "category" in again["args"] else again["args"].get("category")
+                ops.append(again)
         else:
             op = F.gen_extra_op(rng, invalid)
             valid_before = [o for o in ops if o["meta"].get("invalid") is None]
@@ -119,8 +135,41 @@ def check_history(ctx, pm, H):
     accepted = refused = 0
     seen_cells = {}
     shared_lists = []
+    attr = {"rpms": "rpms", "modules": "modules", "extra": "extra_files"}[kind]
     for step, op in enumerate(H["ops"]):
         before = F.real_state(real, kind)
+        if op.get("interlude"):
+            v, a = op["args"]["variant"], op["args"]["arch"]
+            mstate = getattr(model, attr)
+            case = {"kind": kind, "ops": H["ops"][:step + 1], "step": step}
+            problem = None
+            try:
+                if op["interlude"] == "del-variant":
+                    if v not in mstate:
+                        continue
+                    del real[v]
+                    del mstate[v]
+                elif op["interlude"] == "del-arch":
+                    if a not in mstate.get(v, {}):
+                        continue
+                    del real[v][a]
+                    del mstate[v][a]
+                else:
+                    if not mstate:
+                        continue
+                    if not getattr(real.compose, "id", None):
+                        F.fill_compose(real.compose)
+                    real.loads(real.dumps())
+            except Exception as e:
+                problem = ["%s raised %s: %s" % (op["interlude"], type(e).__name__, str(e)[:120])]
+            ctx.count("interlude-" + op["interlude"])
+            diffs = problem or F.first_diff(model.state(), F.real_state(real, kind))
+            ctx.monitor("state-matches-model", fired=bool(diffs))
+            if diffs:
+                ctx.violation("state-matches-model", "deleting a variant / an arch removes exactly that entry; reading the manifest's own dump "
+                              "back leaves the mapping as it was", case, observed=diffs, expected="model state")
+                _adopt(model, kind, F.real_state(real, kind))
+            continue
         op_run = copy.deepcopy(op)
         if kind == "modules" and isinstance(op_run["args"].get("rpms"), list):
             # callers reuse list objects: every third modules call passes the SAME list object as the previous list-carrying call
